@@ -872,6 +872,67 @@ def shape_graphs():
     return out
 
 
+def constructor_graphs(G):
+    """graph OBJECTS as every public constructor / generator / conversion delivers them (subclasses that override the views,
+    objects built without add_edge, objects returned by a reader): [(type, ..., origin, thunk)]"""
+    import networkx
+    out = []
+
+    def add(ty, label, thunk):
+        out.append((ty, None, None, None, None, label, thunk))
+    for (L, R) in ((0, 0), (1, 1), (3, 2), (16, 17), (2, 257), (0, 3), (3, 0)):
+        add('bipartite', 'CompleteBipartiteGraph', lambda L=L, R=R: G.CompleteBipartiteGraph(L, R))
+
+    def cb_after_add():
+        g = G.CompleteBipartiteGraph(3, 4)
+        g.add_edge(1, 1)
+        return g
+    add('bipartite', 'CompleteBipartiteGraph', cb_after_add)
+    for n in (0, 1, 2, 5, 17):
+        add('simple', 'Graph.complete_graph', lambda n=n: G.Graph.complete_graph(n))
+        add('simple', 'Graph.star_graph', lambda n=n: G.Graph.star_graph(n))
+        add('simple', 'Graph.empty_graph', lambda n=n: G.Graph.empty_graph(n))
+    add('simple', 'Graph.null_graph', lambda: G.Graph.null_graph())
+    for h in (0, 1, 3):
+        for ty in ('dag', 'digraph'):
+            add(ty, 'dag_pyramid', lambda h=h: G.dag_pyramid(h))
+            add(ty, 'dag_complete_binary_tree', lambda h=h: G.dag_complete_binary_tree(h))
+            add(ty, 'dag_path', lambda h=h: G.dag_path(h + 9))
+    add('bipartite', 'bipartite_shift', lambda: G.bipartite_shift(5, 7, [0, 2]))
+    add('bipartite', 'bipartite_random_left_regular', lambda: G.bipartite_random_left_regular(4, 6, 2, seed=11))
+    add('bipartite', 'bipartite_random_m_edges', lambda: G.bipartite_random_m_edges(4, 5, 7, seed=12))
+    add('bipartite', 'bipartite_random_m_edges', lambda: G.bipartite_random_m_edges(4, 5, 19, seed=12))
+    add('bipartite', 'bipartite_random_regular', lambda: G.bipartite_random_regular(4, 4, 2, seed=13))
+    add('bipartite', 'bipartite_random', lambda: G.bipartite_random(4, 5, 0.5, seed=14))
+    add('simple', 'Graph.from_networkx', lambda: G.Graph.from_networkx(networkx.relabel_nodes(networkx.petersen_graph(), lambda v: v + 1)))
+    add('simple', 'Graph.from_networkx', lambda: G.Graph.from_networkx(networkx.relabel_nodes(networkx.path_graph(12), lambda v: 12 - v)))
+    add('digraph', 'DirectedGraph.from_networkx', lambda: G.DirectedGraph.from_networkx(networkx.relabel_nodes(networkx.gn_graph(12, seed=3), lambda v: v + 1)))
+
+    def bip_nx():
+        B = networkx.Graph()
+        B.add_nodes_from([1, 2, 3], bipartite=0)
+        B.add_nodes_from([4, 5], bipartite=1)
+        B.add_edges_from([(1, 4), (3, 5), (2, 4)])
+        return G.BipartiteGraph.from_networkx(B)
+    add('bipartite', 'BipartiteGraph.from_networkx', bip_nx)
+
+    def split():
+        g = G.Graph.complete_graph(5)
+        return G.split_random_edges(g, 3, seed=5) or g
+
+    def added():
+        g = G.Graph.empty_graph(6)
+        return G.add_random_missing_edges(g, 7, seed=6) or g
+
+    def added_b():
+        g = G.BipartiteGraph(3, 4)
+        return G.add_random_missing_edges(g, 5, seed=7) or g
+    add('simple', 'split_random_edges', split)
+    add('simple', 'add_random_missing_edges', added)
+    add('bipartite', 'add_random_missing_edges', added_b)
+    return out
+
+
 UNICODE_CHILD = r"""# -*- coding: utf-8 -*-
 import sys, os, json
 d = sys.argv[1]
@@ -913,6 +974,7 @@ def run_shapes(ctx, G, quick, has_dot):
     t0 = time.time()
     formats = G.supported_graph_formats()
     run_roundtrip(ctx, G, shape_graphs(), has_dot, formats, quick, stream='shapes', gml_dot_all=True)
+    run_roundtrip(ctx, G, constructor_graphs(G), has_dot, formats, quick, stream='shapes', gml_dot_all=True)
     tmp = tempfile.mkdtemp(prefix='c14shapes-')
     graphs = {'simple': mk_graph(G, 'simple', 12, 0, [(1, 12), (3, 2), (11, 10)], 'G'), 'digraph': mk_graph(G, 'digraph', 12, 0, [(12, 1), (3, 3), (10, 11)], 'G'),
               'dag': mk_graph(G, 'dag', 12, 0, [(1, 12), (2, 3), (10, 11)], 'G'), 'bipartite': mk_graph(G, 'bipartite', 11, 12, [(11, 12), (1, 10), (2, 1)], 'G')}
